@@ -299,6 +299,52 @@ def direct_interrupt_part(chk, exprs):
         shutil.rmtree(W, ignore_errors=True)
 
 
+def sudo_kill_part(chk):
+    """the kill is delivered through `sudo denoise kill <pid>` when the benchmark runs under denoise: a stand-in sudo first
+    on PATH runs the repository's own denoise.py with the arguments it was given"""
+    W = session.scratch_dir()
+    allp = []
+    old_path = os.environ.get("PATH", "")
+    try:
+        with open(os.path.join(W, "tree.py"), "w") as f:
+            f.write(TREE_SRC)
+        os.makedirs(os.path.join(W, "bin"))
+        with open(os.path.join(W, "bin", "sudo"), "w") as f:
+            f.write("#!/bin/sh\nprintf 'SUDO %%s\\n' \"$*\" >> '%s/sudo.log'\n[ \"$1\" = -n ] && shift\nPYTHONPATH='%s' exec '%s' \"$@\"\n"
+                    % (W, core.REPO, core.PY))
+        os.chmod(os.path.join(W, "bin", "sudo"), 0o755)
+        os.environ["PATH"] = os.path.join(W, "bin") + ":" + old_path
+        for n, depth in enumerate([0, 2, 3] if chk.tier == "quick" else [0, 1, 2, 3, 3, 2]):
+            ident = "s%d" % n
+            cmd = "%s -S %s %s %s %d %d %s %s" % (core.PY, os.path.join(W, "tree.py"), W, ident, depth, 1 if depth == 3 else 2, 30.0, 60.0)
+            t0 = time.time()
+            try:
+                res = swt.run(cmd, None, cwd=W, shell=True, timeout=2, stdout=subprocess.PIPE, stderr=subprocess.STDOUT, uses_sudo=True)
+            except BaseException as e:  # noqa
+                res = ("exception", repr(e), None)
+            time.sleep(0.1)
+            pids = read_pids(W, ident)
+            allp += [p for p, _, _ in pids]
+            case = dict(depth=depth, limit=2, denoise=True)
+            want = sum((1 if depth == 3 else 2) ** k for k in range(depth + 1))
+            if len(pids) != want:
+                chk.count("skipped_tree_not_complete_before_the_deadline")
+                continue
+            left = [p for p, _, _ in pids if alive(p)]
+            log = open(os.path.join(W, "sudo.log")).read() if os.path.exists(os.path.join(W, "sudo.log")) else ""
+            if res[0] != -9 or left:
+                chk.violation("C16 under denoise a timed-out process and its descendants are killed (through sudo denoise kill)", case,
+                              "exit status -9, nothing alive", dict(result=res[0], alive=left, sudo_calls=log.count("SUDO")))
+            if " kill " not in log:
+                chk.violation("C16 under denoise the kill is delivered through sudo", case, "sudo ... kill <pid>", log[-300:])
+            chk.case(("sudo-kill", n))
+            chk.count("direct_timeout_under_denoise")
+    finally:
+        os.environ["PATH"] = old_path
+        cleanup(allp)
+        shutil.rmtree(W, ignore_errors=True)
+
+
 # ----------------------------------------------------------------------------- whole sessions
 
 def session_config(W, ign, limit=1):
@@ -415,6 +461,7 @@ def run(chk):
     exprs = []
     direct_part(chk, exprs)
     direct_interrupt_part(chk, exprs)
+    sudo_kill_part(chk)
     sessions_part(chk)
     try:
         res = core.coq_eval(IMPORTS, [e[3] for e in exprs], chk.scratch, chunk=100)
@@ -439,7 +486,7 @@ def run(chk):
                             "that finish in time; sessions with ignore_timeouts on/off; SIGINT/SIGTERM at each process start; distinct = scenario")
     chk.assumptions += ["children forked after the snapshot (pgrep) are outside the model and the scenarios",
                         "a zombie counts as dead: PID 1 of the sandbox does not reap orphans",
-                        "denoise (sudo kill delivery) is not exercised here: there is no sudo in the sandbox (see C20 for the fake one)"]
+                        "under denoise the kill goes through `sudo denoise kill`: a stand-in sudo runs the repository's denoise.py unprivileged"]
     return chk.finish()
 
 
